@@ -363,4 +363,120 @@ theorem sat_sound_scalar (ax ay bx «by» mx my Mx My : K) (hm : mx ≤ Mx) (hmy
     exact ⟨t, h0, h1, ⟨by linarith, by linarith⟩, ⟨by linarith, by linarith⟩⟩
 
 
+/-! ### `clip_aabb_line` -/
+
+theorem neq_zero_field (d : K) : @neq K (fieldNum K sq) d 0 = true ↔ d = 0 := by
+  unfold neq
+  simp only [Bool.and_eq_true, decide_eq_true_eq]
+  constructor
+  · rintro ⟨h1, h2⟩; exact le_antisymm h1 h2
+  · rintro rfl; exact ⟨le_refl _, le_refl _⟩
+
+/-- the set of parameters `t` for which one coordinate `o + t d` lies in `[lo, hi]`, `d ≠ 0` -/
+theorem axis_interval (lo hi o d : K) (hlh : lo ≤ hi) (hd : d ≠ 0) (t : K) :
+    (lo ≤ o + t * d ∧ o + t * d ≤ hi) ↔ (min ((lo - o) * (1 / d)) ((hi - o) * (1 / d)) ≤ t ∧ t ≤ max ((lo - o) * (1 / d)) ((hi - o) * (1 / d))) := by
+  rcases lt_or_gt_of_ne hd with h | h
+  · -- d < 0
+    have e1 : ∀ x : K, x * (1 / d) ≤ t ↔ t * d ≤ x := by
+      intro x; rw [mul_one_div, div_le_iff_of_neg h]
+    have e2 : ∀ x : K, t ≤ x * (1 / d) ↔ x ≤ t * d := by
+      intro x; rw [mul_one_div, le_div_iff_of_neg h]
+    have hle : (hi - o) * (1 / d) ≤ (lo - o) * (1 / d) := by
+      rw [mul_one_div, mul_one_div]; exact (div_le_div_right_of_neg h).mpr (by linarith)
+    rw [min_eq_right hle, max_eq_left hle, e1, e2]
+    constructor <;> rintro ⟨h1, h2⟩ <;> constructor <;> linarith
+  · have e1 : ∀ x : K, x * (1 / d) ≤ t ↔ x ≤ t * d := by
+      intro x; rw [mul_one_div, div_le_iff₀ h]
+    have e2 : ∀ x : K, t ≤ x * (1 / d) ↔ t * d ≤ x := by
+      intro x; rw [mul_one_div, le_div_iff₀ h]
+    have hle : (lo - o) * (1 / d) ≤ (hi - o) * (1 / d) := by
+      rw [mul_one_div, mul_one_div]; exact (div_le_div_iff_of_pos_right h).mpr (by linarith)
+    rw [min_eq_left hle, max_eq_right hle, e1, e2]
+    constructor <;> rintro ⟨h1, h2⟩ <;> constructor <;> linarith
+
+/-- what `clip_aabb_line` has established after some axes: `none` = no admissible parameter, `some (a, b)` = the admissible
+parameters are exactly `[a, b]`, which is not empty -/
+def ClipOk (acc : Option (K × K)) (C : K → Prop) : Prop :=
+  match acc with
+  | none => ∀ t, ¬ C t
+  | some (a, b) => a ≤ b ∧ ∀ t, (a ≤ t ∧ t ≤ b) ↔ C t
+
+/-- one axis of `clip_aabb_line` intersects the admissible parameter set with `{t | lo ≤ o + t d ≤ hi}` -/
+theorem clipAxis_spec (mins maxs origin dir : V2 K) (i : Nat) (hlh : mins.get i ≤ maxs.get i) (acc : Option (K × K))
+    (C : K → Prop) (hacc : ClipOk acc C) :
+    letI := fieldNum K sq
+    ClipOk (clipAxis mins maxs origin dir acc i)
+      (fun t => C t ∧ mins.get i ≤ origin.get i + t * dir.get i ∧ origin.get i + t * dir.get i ≤ maxs.get i) := by
+  letI := fieldNum K sq
+  cases acc with
+  | none => exact fun t h => hacc t h.1
+  | some p =>
+    obtain ⟨tmin, tmax⟩ := p
+    obtain ⟨hle, hC⟩ := hacc
+    unfold clipAxis
+    simp only []
+    by_cases hd : dir.get i = 0
+    · rw [if_pos ((neq_zero_field sq _).mpr hd)]
+      by_cases hout : origin.get i < mins.get i ∨ maxs.get i < origin.get i
+      · rw [if_pos hout]
+        intro t ht
+        rw [hd] at ht
+        rcases hout with h | h <;> linarith [ht.2.1, ht.2.2]
+      · rw [if_neg hout]
+        push Not at hout
+        refine ⟨hle, fun t => ?_⟩
+        rw [hC t, hd]
+        constructor
+        · intro h; exact ⟨h, by linarith [hout.1], by linarith [hout.2]⟩
+        · intro h; exact h.1
+    · rw [if_neg (fun h => hd ((neq_zero_field sq _).mp h))]
+      set n0 := (mins.get i - origin.get i) * (1 / dir.get i) with hn0
+      set f0 := (maxs.get i - origin.get i) * (1 / dir.get i) with hf0
+      have hn : (if f0 < n0 then f0 else n0) = min n0 f0 := by
+        split_ifs with h
+        · exact (min_eq_right h.le).symm
+        · exact (min_eq_left (not_lt.mp h)).symm
+      have hf : (if f0 < n0 then n0 else f0) = max n0 f0 := by
+        split_ifs with h
+        · exact (max_eq_left h.le).symm
+        · exact (max_eq_right (not_lt.mp h)).symm
+      rw [hn, hf]
+      have hmin : (if tmin < min n0 f0 then min n0 f0 else tmin) = max tmin (min n0 f0) := by
+        split_ifs with h
+        · exact (max_eq_right h.le).symm
+        · exact (max_eq_left (not_lt.mp h)).symm
+      have hmax : (if max n0 f0 < tmax then max n0 f0 else tmax) = min tmax (max n0 f0) := by
+        split_ifs with h
+        · exact (min_eq_right h.le).symm
+        · exact (min_eq_left (not_lt.mp h)).symm
+      rw [hmin, hmax]
+      have key : ∀ t, (max tmin (min n0 f0) ≤ t ∧ t ≤ min tmax (max n0 f0)) ↔
+          (C t ∧ mins.get i ≤ origin.get i + t * dir.get i ∧ origin.get i + t * dir.get i ≤ maxs.get i) := by
+        intro t
+        rw [axis_interval _ _ _ _ hlh hd t, ← hC t, max_le_iff, le_min_iff]
+        tauto
+      by_cases hemp : min tmax (max n0 f0) < max tmin (min n0 f0)
+      · rw [if_pos hemp]
+        intro t ht
+        have := (key t).mpr ht
+        linarith [this.1, this.2]
+      · rw [if_neg hemp]
+        exact ⟨not_lt.mp hemp, key⟩
+
+theorem realMax_ge_one : (1 : K) ≤ @realMax K (fieldNum K sq) := by
+  unfold realMax
+  rw [fieldNum_lit]
+  have : (1 : ℚ) ≤ mkRat (2 ^ 1024 - 2 ^ 971) 1 := by
+    rw [Rat.mkRat_one]
+    have h1 : (2:ℤ) ^ 971 * 2 ≤ 2 ^ 1024 := by
+      rw [← pow_succ]; exact pow_le_pow_right₀ (by norm_num) (by norm_num)
+    have h2 : (1:ℤ) ≤ 2 ^ 971 := one_le_pow₀ (by norm_num)
+    have : (1:ℤ) ≤ 2 ^ 1024 - 2 ^ 971 := by
+      generalize (2:ℤ) ^ 971 = x at h1 h2 ⊢
+      generalize (2:ℤ) ^ 1024 = y at h1 ⊢
+      omega
+    exact_mod_cast this
+  exact_mod_cast this
+
+
 end C18
